@@ -19,6 +19,37 @@ class Interner:
         str(SH.Warning): 5,
         str(SH.Info): 6,
         str(RDFS.Resource): 7,
+        str(SH.NotConstraintComponent): 20,
+        str(SH.AndConstraintComponent): 21,
+        str(SH.OrConstraintComponent): 22,
+        str(SH.XoneConstraintComponent): 23,
+        str(SH.NodeConstraintComponent): 24,
+        str(SH.PropertyConstraintComponent): 25,
+        str(SH.QualifiedMinCountConstraintComponent): 26,
+        str(SH.QualifiedMaxCountConstraintComponent): 27,
+        str(SH.ClassConstraintComponent): 30,
+        str(SH.DatatypeConstraintComponent): 31,
+        str(SH.NodeKindConstraintComponent): 32,
+        str(SH.MinCountConstraintComponent): 33,
+        str(SH.MaxCountConstraintComponent): 34,
+        str(SH.MinExclusiveConstraintComponent): 35,
+        str(SH.MinInclusiveConstraintComponent): 36,
+        str(SH.MaxExclusiveConstraintComponent): 37,
+        str(SH.MaxInclusiveConstraintComponent): 38,
+        str(SH.MinLengthConstraintComponent): 39,
+        str(SH.MaxLengthConstraintComponent): 40,
+        str(SH.PatternConstraintComponent): 41,
+        str(SH.LanguageInConstraintComponent): 42,
+        str(SH.UniqueLangConstraintComponent): 43,
+        str(SH.EqualsConstraintComponent): 44,
+        str(SH.DisjointConstraintComponent): 45,
+        str(SH.LessThanConstraintComponent): 46,
+        str(SH.LessThanOrEqualsConstraintComponent): 47,
+        str(SH.HasValueConstraintComponent): 48,
+        str(SH.InConstraintComponent): 49,
+        str(SH.ClosedConstraintComponent): 50,
+        str(SH.SPARQLConstraintComponent): 51,
+        str(SH.ExpressionConstraintComponent): 52,
     }
 
     def __init__(self):
